@@ -1,9 +1,13 @@
 (* C02 — select() criteria combine as documented, whatever the call history.  Only statements here.
-   Model / spec / wire: Model/Select.v (+ Base/SelSlice.v); proofs: Proofs/SelectBaseP.v, SelectP.v, SelectLawsP.v,
-   SelectCritP.v, SelectExP.v. *)
-From Coq Require Import ZArith List Bool String Permutation.
-From KV Require Import Base.Sx Base.Str Base.SelSlice Gen.Generated Model.Select
-  Proofs.SelectBaseP Proofs.SelectP Proofs.SelectLawsP Proofs.SelectCritP Proofs.SelectExP.
+   Part 1 (single spectral window / subarray, criteria as evaluated values): Model/Select.v (+ Base/SelSlice.v);
+   proofs: Proofs/SelectBaseP.v, SelectP.v, SelectLawsP.v, SelectCritP.v, SelectExP.v.
+   Part 2 (several windows / subarrays, spw= / subarray=, the strings and sequences the caller passes, every
+   outcome of a call incl. the state left behind when it raises part-way, the public attributes, the constructor
+   path): Model/SelectX.v; proofs: Proofs/SelectXP.v, SelectXRefP.v, SelectXLawsP.v, SelectXFormsP.v, SelectXExP.v. *)
+From Coq Require Import ZArith List Bool String Ascii Permutation Sorted.
+From KV Require Import Base.Sx Base.Str Base.SelSlice Gen.Generated Model.Select Model.SelectX
+  Proofs.SelectBaseP Proofs.SelectP Proofs.SelectLawsP Proofs.SelectCritP Proofs.SelectExP
+  Proofs.SelectXP Proofs.SelectXRefP Proofs.SelectXLawsP Proofs.SelectXFormsP Proofs.SelectXExP.
 Import ListNotations.
 Open Scope Z_scope.
 
@@ -30,7 +34,6 @@ Theorem C02_loop_branches_match_groups :
                                         | _, _ => false end) (fst row)) sel_loop_table = true
   /\ flat_map fst sel_loop_table = doc_group DT ++ doc_group DF ++ doc_group DB ++ ["weights"%string; "flags"%string].
 Proof. exact loop_table_matches_groups. Qed.
-Print Assumptions C02_loop_branches_match_groups.
 
 (* ------------------------------------------------------------------ histories *)
 
@@ -39,7 +42,6 @@ Print Assumptions C02_loop_branches_match_groups.
    criterion can be evaluated and already holds of its mask, and a retained weights / flags entry is the current one. *)
 Theorem C02_invariant : forall o s, reachable o s -> Inv o s.
 Proof. exact reachable_inv. Qed.
-Print Assumptions C02_invariant.
 
 (* MAIN.  For every observation, every reachable state and every further call (distinct keywords, as Python
    guarantees), the model of the code and the documented rule agree: same exception class, or the same three masks
@@ -56,7 +58,6 @@ Proof.
   intros o s kw s1 H. pose proof (reachable_inv o s H) as HI.
   apply idempotent; [exact (inv_wf _ _ HI) | exact (inv_nodup _ _ HI)].
 Qed.
-Print Assumptions C02_idempotent.
 
 (* Keyword order is irrelevant, now and after any common continuation of the history. *)
 Theorem C02_kw_order : forall o s kw kw' rest, reachable o s ->
@@ -66,13 +67,11 @@ Proof.
   intros o s kw kw' rest H. pose proof (reachable_inv o s H) as HI.
   apply kw_order; [exact (inv_wf _ _ HI) | exact (inv_nodup _ _ HI)].
 Qed.
-Print Assumptions C02_kw_order.
 
 (* The order of the entries of _selection never matters: equivalent states stay equivalent under any history. *)
 Theorem C02_selection_order_irrelevant : forall o calls s s', wf_st o s -> st_equiv s s' ->
   Forall (fun c => NoDup (keys c)) calls -> res_equiv (run o s calls) (run o s' calls).
 Proof. exact run_equiv. Qed.
-Print Assumptions C02_selection_order_irrelevant.
 
 (* Reset laws, for every reachable state. *)
 Theorem C02_reset_laws : forall o s, reachable o s ->
@@ -98,7 +97,6 @@ Proof.
   split; [exact spec_reset_explicit|]. split; [exact spec_reset_auto|].
   intros kw s' d Nk Hs H1 H2. rewrite (select_dim o s kw s' d HI Nk Hs). apply untouched_dim; assumption.
 Qed.
-Print Assumptions C02_reset_laws.
 
 (* flags= / weights= never change the masks (reused by C16, C03): a call carrying only these keywords succeeds,
    leaves the three masks alone and sets exactly the named selection(s); and any successful call that does not
@@ -116,7 +114,6 @@ Proof.
   - intros Hne Hk. apply flags_weights_only; assumption.
   - intros s' Hs. exact (flags_kept o s kw s' HI Nk Hs).
 Qed.
-Print Assumptions C02_flags_weights_never_change_masks.
 
 (* strict: an unknown keyword raises TypeError before anything is touched; strict=False never does, and the unknown
    keyword contributes no mask. *)
@@ -129,7 +126,6 @@ Proof.
   intros o s kw k. split; [apply strict_unknown_rejected|].
   split; [intros v; apply nonstrict_never_typeerror | intros v; apply unknown_kw_no_mask].
 Qed.
-Print Assumptions C02_strict.
 
 (* ------------------------------------------------------------------ what each criterion keeps *)
 
@@ -139,14 +135,12 @@ Theorem C02_timerange_wholly_inside : forall o lo hi i,
   (nth i (timerange_mask o lo hi) false = true <->
    exists d, nth_error (o_dumps o) i = Some d /\ lo <= d_ts d - o_half o /\ d_ts d + o_half o <= hi).
 Proof. exact timerange_wholly_inside. Qed.
-Print Assumptions C02_timerange_wholly_inside.
 
 Theorem C02_freqrange_wholly_inside : forall o lo hi i,
   crit o "freqrange" (VRange lo hi) = CMask DF (freqrange_mask o lo hi) /\
   (nth i (freqrange_mask o lo hi) false = true <->
    exists f, nth_error (o_freqs o) i = Some f /\ lo <= f - o_halfw o /\ f + o_halfw o <= hi).
 Proof. exact freqrange_wholly_inside. Qed.
-Print Assumptions C02_freqrange_wholly_inside.
 
 (* scans by index / state / ~state: what one item keeps; '~x' keeps exactly what 'x' drops. *)
 Theorem C02_scans_item : forall o it i,
@@ -154,13 +148,11 @@ Theorem C02_scans_item : forall o it i,
   exists d, nth_error (o_dumps o) i = Some d /\
             match it with SIdx z => d_scan d = z | SName id => d_state d = id | SNot id => d_state d <> id end.
 Proof. exact scans_item. Qed.
-Print Assumptions C02_scans_item.
 
 Theorem C02_tilde_negates : forall o id,
   scans_mask o [SNot id] = map negb (scans_mask o [SName id]) /\
   compscans_mask o [SNot id] = map negb (compscans_mask o [SName id]).
 Proof. exact tilde_negates. Qed.
-Print Assumptions C02_tilde_negates.
 
 (* unknown target names and unknown tags select nothing. *)
 Theorem C02_unknown_target_or_tag_selects_nothing : forall o id i,
@@ -169,7 +161,6 @@ Theorem C02_unknown_target_or_tag_selects_nothing : forall o id i,
 Proof.
   intros o id i. split; [apply unknown_target_selects_nothing | apply unknown_tag_selects_nothing].
 Qed.
-Print Assumptions C02_unknown_target_or_tag_selects_nothing.
 
 (* items inside one criterion are ORed (scans, compscans, targets, target_tags). *)
 Theorem C02_or_within : forall o i,
@@ -183,7 +174,6 @@ Proof.
   intros o i. repeat split; intros a b;
     [apply or_within_scans | apply or_within_compscans | apply or_within_targets | apply or_within_tags].
 Qed.
-Print Assumptions C02_or_within.
 
 (* ants: both antennas among the plain names; when all names carry a tilde (or none are given): neither antenna
    among them. *)
@@ -198,7 +188,6 @@ Theorem C02_ants : forall o l i,
        exists cp, nth_error (o_cps o) i = Some cp /\
                   ~ In (ant_of (fst cp)) (map snd l) /\ ~ In (ant_of (snd cp)) (map snd l))).
 Proof. intros o l i. split; [apply ants_membership | apply ants_all_tilde_complement]. Qed.
-Print Assumptions C02_ants.
 
 (* pol: 'h' is 'hh', 'v' is 'vv'; a two-letter item keeps the products with exactly these two polarisations;
    corrprods='cross' is the complement of 'auto'. *)
@@ -212,14 +201,12 @@ Proof.
   intro o. destruct (pol_h_is_hh o) as [A B]. split; [exact A|]. split; [exact B|].
   split; [intros p q i; apply pol_item | apply auto_cross].
 Qed.
-Print Assumptions C02_pol.
 
 (* dumps / channels / corrprods given as slice(a, b) inside the axis keep exactly positions a .. b-1. *)
 Theorem C02_slice_unit_step : forall n a b i, 0 <= a <= Z.of_nat n -> 0 <= b <= Z.of_nat n ->
   exists m, index_mask n (IxSlice (Some a) (Some b) None) = Some m /\
             (nth i m false = true <-> (i < n)%nat /\ a <= Z.of_nat i < b).
 Proof. exact slice_unit_step. Qed.
-Print Assumptions C02_slice_unit_step.
 
 (* ------------------------------------------------------------------ non-vacuity *)
 (* A 12-dump, 3-target observation and a 4-call history (scans+pol; channels; stacked targets; timerange+flags)
@@ -231,4 +218,398 @@ Theorem C02_example :
   /\ flk ex_s4 = VAtom 3
   /\ keys (sel ex_s4) = ["spw"; "subarray"; "pol"; "channels"; "timerange"; "flags"]%string.
 Proof. exact ex_run. Qed.
-Print Assumptions C02_example.
+
+
+(* ==================================================================================================== *)
+(* PART 2: several spectral windows / subarrays, surface forms, failed calls, public attributes       *)
+(* ==================================================================================================== *)
+
+(* ------------------------------------------------------------------ tie to the source (translator) *)
+
+(* Every comparison operator, margin, index, sensor name, letter and special character that the translator reads
+   from DataSet.select, _selection_to_list and _is_deselection is the documented one. *)
+Theorem C02_decisions_are_documented :
+  sel_spw_range = (0, ("LtE", "Lt"))%string /\ sel_sub_range = (0, ("LtE", "Lt"))%string
+  /\ sel_spw_change = ("NotEq", "TF")%string /\ sel_sub_change = ("NotEq", "TB")%string
+  /\ sel_init_spw = -1 /\ sel_init_sub = -1
+  /\ sel_time_base = [("Observation/spw_index", ("Eq", "spw")); ("Observation/subarray_index", ("Eq", "subarray"))]%string
+  /\ sel_timerange = [(0, ("Add", ((1, 2), "GtE"))); (1, ("Sub", ((1, 2), "LtE")))]%string
+  /\ sel_freqrange = [(0, ("Add", ((1, 2), "GtE"))); (1, ("Sub", ((1, 2), "LtE")))]%string
+  /\ sel_scan_negation = ("Eq"%string, 126) /\ sel_deselection = ("NotEq"%string, 126) /\ sel_list_sep = 44
+  /\ sel_auto_cmp = "Eq"%string /\ sel_cross_cmp = "NotEq"%string
+  /\ sel_ants_desel = ("NotIn", ("And", "NotIn"))%string /\ sel_ants_sel = ("In", ("And", "In"))%string
+  /\ sel_inputs_ops = ("In", ("And", "In"))%string
+  /\ sel_pol_single = [104; 118] /\ sel_pol_repeat = 2 /\ sel_pol_nonempty = ("Gt"%string, 0)
+  /\ sel_pol_match = (("Eq"%string, 0), ("And"%string, ("Eq"%string, 1))).
+Proof. exact decisions_are_documented. Qed.
+Print Assumptions C02_decisions_are_documented.
+
+(* The comparisons as written in the source, interpreted generically, ARE the masks of the model: timerange /
+   freqrange margins and inequalities, auto / cross, ants (selection and deselection), inputs, two-letter pol. *)
+Theorem C02_source_comparisons_agree : forall o,
+  (forall lo hi, gen_timerange_mask o lo hi = timerange_mask o lo hi)
+  /\ (forall lo hi, gen_freqrange_mask o lo hi = freqrange_mask o lo hi)
+  /\ Some (gen_auto_mask o) = corrprods_mask o VAuto /\ Some (gen_cross_mask o) = corrprods_mask o VCross
+  /\ (forall l, gen_ants_mask o l = ants_mask o l)
+  /\ (forall l, gen_inputs_mask o l = inputs_mask o l)
+  /\ (forall cp p q, gen_pol_keep cp p q = pitem_keep cp (PTwo p q)).
+Proof. exact gen_agrees. Qed.
+
+(* ------------------------------------------------------------------ constructor and invariants *)
+
+(* DataSet.__init__ followed by the constructor's select(spw=0, subarray=0): window 0 / subarray 0, the dumps
+   recorded with them, all channels, all products, _selection = {spw, subarray}; the invariants hold. *)
+Theorem C02_constructor_state : forall xo, has_windows xo ->
+  xinit xo = with_core (xinit_core xo) 0 0 (pub_of (view_at xo 0 0) (sub_at xo 0) (xinit_core xo))
+  /\ tk (xinit_core xo) = window_mask xo 0 0 /\ window_mask xo 0 0 = wmask xo 0 0
+  /\ XInv xo (xinit xo).
+Proof.
+  intros xo [Hs Hb]. split; [apply xinit_closed; assumption|]. split; [reflexivity|].
+  split; [apply window_mask_base | apply XInv_init; assumption].
+Qed.
+
+(* xreach_any: states after ANY history from the constructor.  xreach: the constructor state, the state after an
+   ACCEPTED call from any xreach_any state (so also after failed calls have been recovered from), and such states
+   after documented rejections - i.e. every state in which no part-way failure is pending. *)
+(* After ANY history (accepted, rejected and part-way failed calls): window and subarray in range, masks of the
+   lengths of the current window / subarray, distinct keys, and the time selection inside the dumps recorded with
+   the current window and subarray (spw / subarray are "always active").  After a history without part-way
+   failures moreover: every retained criterion holds of its mask and the public attributes are those of the masks. *)
+Theorem C02_multiwindow_invariant : forall xo s, has_windows xo ->
+  (xreach_any xo s -> WInv xo s) /\ (xreach xo s -> XInv xo s).
+Proof. intros xo s H. split; [apply xreach_any_WInv | apply xreach_XInv]; exact H. Qed.
+
+(* ------------------------------------------------------------------ MAIN (several windows / subarrays) *)
+
+(* For every observation, every state reachable without part-way failure and every further call given in its
+   surface form with distinct keywords: the model of the code and the documented rule agree on the outcome
+   (accepted / TypeError / IndexError / other exception) and, unless the call raises part-way, on the three masks,
+   the window and the subarray:  new_d = (fresh_d if d starts afresh else old_d) AND criteria of this call on d,
+   where d starts afresh by the reset rule or because the window (T, F) / subarray (T, B) changes, and fresh_T =
+   dumps recorded with the new window and subarray. *)
+Theorem C02_multiwindow_refines : forall xo s xkw, has_windows xo -> xreach xo s -> NoDup (map fst xkw) ->
+  fst (xselect xo s xkw) = fst (xspec_select xo (xm_of s) xkw) /\
+  (fst (xselect xo s xkw) <> OFail -> xm_of (snd (xselect xo s xkw)) = snd (xspec_select xo (xm_of s) xkw)).
+Proof. intros xo s xkw H R. apply xrefines. apply xreach_XInv; assumption. Qed.
+Print Assumptions C02_multiwindow_refines.
+
+Example C02_multiwindow_refines_example :
+  XInv ex_xobs xs2 /\ NoDup (map fst xc3)
+  /\ xspec_select ex_xobs (xm_of xs2) xc3 = (OOk, xm_of xs3)
+  /\ xspec_select ex_xobs (xm_of xs3) xc4 = (OOk, xm_of xs4)
+  /\ fst (xspec_select ex_xobs (xm_of xs5) xc_neg) = OIndexError.
+Proof. exact ex_refines_instance. Qed.
+
+(* Whole histories: as long as the documented rule never meets a call that raises part-way, outcome and selection
+   after EVERY call are those of the documented rule; hence keyword order is irrelevant now and after any
+   continuation, and repeating an accepted call changes neither selection nor public attributes. *)
+Theorem C02_history_refines : forall xo s calls, has_windows xo -> xreach xo s ->
+  Forall (fun c => NoDup (map fst c)) calls -> no_partway_failure (xspec_run xo (xm_of s) calls) ->
+  xrun xo s calls = xspec_run xo (xm_of s) calls.
+Proof. intros xo s calls H R. apply xhistory_refines. apply xreach_XInv; assumption. Qed.
+Print Assumptions C02_history_refines.
+
+Theorem C02_multiwindow_kw_order : forall xo s xkw xkw' rest, has_windows xo -> xreach xo s ->
+  Permutation xkw xkw' -> NoDup (map fst xkw) -> Forall (fun c => NoDup (map fst c)) rest ->
+  no_partway_failure (xspec_run xo (xm_of s) (xkw :: rest)) ->
+  xrun xo s (xkw :: rest) = xrun xo s (xkw' :: rest).
+Proof. intros xo s xkw xkw' rest H R. apply xkw_order. apply xreach_XInv; assumption. Qed.
+
+Theorem C02_multiwindow_idempotent : forall xo s xkw s1, has_windows xo -> xreach xo s -> NoDup (map fst xkw) ->
+  xselect xo s xkw = (OOk, s1) ->
+  exists s2, xselect xo s1 xkw = (OOk, s2) /\ xm_of s2 = xm_of s1 /\ x_pub s2 = x_pub s1.
+Proof. intros xo s xkw s1 H R. apply xidempotent. apply xreach_XInv; assumption. Qed.
+
+Example C02_history_example :
+  no_partway_failure (xspec_run ex_xobs (xm_of xs0) [xc1; xc2; xc3; xc4; xc5; xc_neg; xc_bogus; xc8])
+  /\ xrun ex_xobs xs0 [xc1; xc2; xc3] = xrun ex_xobs xs0 [xc1; xc2; xc3']
+  /\ Permutation xc3 xc3'.
+Proof. exact ex_history_instance. Qed.
+
+(* What a change of window / subarray resets - and what it must NOT touch.  After an accepted call, per dimension:
+   fresh-or-old mask ANDed with this call's criteria; a change of window forces time and frequency afresh, a
+   change of subarray time and products; a dimension that neither starts afresh nor is mentioned is unchanged
+   (e.g. the products and their retained criteria survive spw=, the channels survive subarray=). *)
+Theorem C02_window_change_resets : forall xo s xkw s', has_windows xo -> xreach xo s -> NoDup (map fst xkw) ->
+  xselect xo s xkw = (OOk, s') ->
+  let kw := elab_kw (x_vocab xo) xkw in
+  let chg_spw := negb (x_spw s' =? x_spw s) in
+  let chg_sub := negb (x_sub s' =? x_sub s) in
+  let o := view_at xo (x_spw s') (x_sub s') in
+  (forall d, mget d (x_core s') = fold_left mand (spec_crit_masks o d kw)
+                (if xspec_reset kw chg_spw chg_sub d then xbase xo o (x_spw s') (x_sub s') d else mget d (x_core s)))
+  /\ (chg_spw = true -> xspec_reset kw chg_spw chg_sub DT = true /\ xspec_reset kw chg_spw chg_sub DF = true)
+  /\ (chg_sub = true -> xspec_reset kw chg_spw chg_sub DT = true /\ xspec_reset kw chg_spw chg_sub DB = true)
+  /\ (forall d, xspec_reset kw chg_spw chg_sub d = false -> hits kw (doc_group d) = false ->
+        mget d (x_core s') = mget d (x_core s)).
+Proof. intros xo s xkw s' H R. apply xselect_dims. apply xreach_XInv; assumption. Qed.
+
+(* weights= / flags= with several windows: an accepted call sets exactly the selection it names and keeps the other
+   (whatever it does to masks, window and subarray). *)
+Theorem C02_multiwindow_flags_weights : forall xo s xkw s', has_windows xo -> xreach xo s -> NoDup (map fst xkw) ->
+  xselect xo s xkw = (OOk, s') ->
+  let kw := elab_kw (x_vocab xo) xkw in
+  wk (x_core s') = match lookup "weights" kw with Some v => v | None => wk (x_core s) end
+  /\ flk (x_core s') = match lookup "flags" kw with Some v => v | None => flk (x_core s) end.
+Proof. intros xo s xkw s' H R. apply xselect_weights_flags. apply xreach_XInv; assumption. Qed.
+
+(* spw= / subarray= outside 0 .. n-1 - negative indices included - is rejected (IndexError, or the TypeError of an
+   unknown keyword) and nothing is touched. *)
+Theorem C02_window_out_of_range : forall xo s xkw z,
+  let kw := elab_kw (x_vocab xo) xkw in
+  (lookup "spw" kw = Some (VAtom z) /\ ~ (0 <= z < Z.of_nat (List.length (x_spws xo)))
+   \/ (atom_of (x_spw s) (lookup "spw" kw) <> None /\ lookup "subarray" kw = Some (VAtom z)
+       /\ ~ (0 <= z < Z.of_nat (List.length (x_subs xo))))) ->
+  (fst (xselect xo s xkw) = OIndexError \/ fst (xselect xo s xkw) = OTypeError) /\ snd (xselect xo s xkw) = s.
+Proof. exact window_out_of_range. Qed.
+
+(* ------------------------------------------------------------------ calls that raise *)
+
+(* `a call that raises leaves the data set as it was`:
+   _partial : true for the documented rejections (TypeError of an unknown keyword, IndexError of spw / subarray);
+   _refuted : false for a call that raises while a criterion is applied - from a reachable state the masks change,
+              shape disagrees with the masks, the offending criterion is retained and the next, unrelated call
+              (channels=0) raises too (finding F74). *)
+Theorem C02_failed_call_atomic_partial : forall xo s xkw oc s', xselect xo s xkw = (oc, s') ->
+  oc = OTypeError \/ oc = OIndexError -> s' = s.
+Proof. exact rejected_untouched. Qed.
+
+Theorem C02_failed_call_atomic_refuted :
+  exists xo s xkw s' later,
+    xreach xo s /\ NoDup (map fst xkw) /\ xselect xo s xkw = (OFail, s')
+    /\ masks_of (x_core s') <> masks_of (x_core s)
+    /\ p_shape (x_pub s') <> [count (tk (x_core s')); count (fk (x_core s')); count (bk (x_core s'))]
+    /\ (exists k v, In (k, v) (sel (x_core s')) /\ crit (view_at xo (x_spw s') (x_sub s')) k v = CErr)
+    /\ lookup "channels" (elab_kw (x_vocab xo) later) <> None /\ List.length later = 1%nat
+    /\ fst (xselect xo s' later) = OFail.
+Proof. exact failed_call_not_atomic. Qed.
+Print Assumptions C02_failed_call_atomic_refuted.
+
+(* keyword order IS visible in the state left by a failed call (so C02_multiwindow_kw_order needs its hypothesis) *)
+Theorem C02_failed_call_kw_order_refuted :
+  exists xo s xkw xkw', xreach xo s /\ Permutation xkw xkw' /\ NoDup (map fst xkw)
+    /\ fst (xselect xo s xkw) = OFail /\ fst (xselect xo s xkw') = OFail
+    /\ tk (x_core (snd (xselect xo s xkw))) <> tk (x_core (snd (xselect xo s xkw'))).
+Proof. exact failed_call_sees_kw_order. Qed.
+
+(* What exactly a call that raised part-way leaves behind, from any state: window / subarray of the call in force,
+   public attributes not recomputed, every keyword of the call retained, one retained criterion unevaluable, weak
+   invariant intact. *)
+Theorem C02_failed_call_state : forall xo s xkw s' spw sub,
+  WInv xo s -> NoDup (map fst xkw) ->
+  xpre xo (x_spw s) (x_sub s) (elab_kw (x_vocab xo) xkw) = inr (spw, sub) ->
+  xselect xo s xkw = (OFail, s') ->
+  let kw := elab_kw (x_vocab xo) xkw in
+  x_spw s' = spw /\ x_sub s' = sub /\ x_pub s' = x_pub s
+  /\ (forall k v, In (k, v) kw -> ~ special k -> In (k, v) (sel (x_core s')))
+  /\ (exists k v, In (k, v) (sel (x_core s')) /\ crit (view_at xo spw sub) k v = CErr)
+  /\ WInv xo s'.
+Proof. exact failed_call_state. Qed.
+
+(* ... and the retained offender makes every later call fail that neither replaces it nor starts its dimension afresh *)
+Theorem C02_poison_persists : forall xo s xkw k v spw sub,
+  WInv xo s -> NoDup (map fst xkw) ->
+  xpre xo (x_spw s) (x_sub s) (elab_kw (x_vocab xo) xkw) = inr (spw, sub) ->
+  In (k, v) (sel (x_core s)) -> crit (view_at xo spw sub) k v = CErr ->
+  lookup k (elab_kw (x_vocab xo) xkw) = None ->
+  popped (xreset (x_spw s) (x_sub s) (elab_kw (x_vocab xo) xkw) spw sub) k = false ->
+  fst (xselect xo s xkw) = OFail.
+Proof. exact poison_persists. Qed.
+
+(* RECOVERY, from whatever state any history left: select() without arguments is accepted and restores the dumps of
+   the current window / subarray, all channels, all products; ANY accepted call re-establishes the strong invariant
+   (so all theorems above apply again) and gives the documented result on every dimension it starts afresh. *)
+Theorem C02_recovery : forall xo s, has_windows xo -> xreach_any xo s ->
+  (exists s', xselect xo s [] = (OOk, s') /\ XInv xo s' /\ x_spw s' = x_spw s /\ x_sub s' = x_sub s /\
+     masks_of (x_core s') = {| m_t := wmask xo (x_spw s) (x_sub s);
+                                m_f := ones (dimlen (view_at xo (x_spw s) (x_sub s)) DF);
+                                m_b := ones (dimlen (view_at xo (x_spw s) (x_sub s)) DB) |})
+  /\ (forall xkw s', NoDup (map fst xkw) -> xselect xo s xkw = (OOk, s') ->
+        XInv xo s' /\ fst (xspec_select xo (xm_of s) xkw) = OOk /\
+        forall d, xspec_fresh xo (xm_of s) xkw d = true ->
+          mk d (masks_of (x_core s')) = mk d (xm_masks (snd (xspec_select xo (xm_of s) xkw)))).
+Proof.
+  intros xo s H R. pose proof (xreach_any_WInv xo s H R) as W. split.
+  - apply xselect_noarg. exact W.
+  - intros xkw s' N E. apply xrecovery; assumption.
+Qed.
+Print Assumptions C02_recovery.
+
+Example C02_recovery_example :
+  WInv ex_xobs xs6 /\ ~ Inv (view_at ex_xobs (x_spw xs6) (x_sub xs6)) (x_core xs6)
+  /\ xselect ex_xobs xs6 [("corrprods"%string, XCore VAuto)] = (OOk, snd (xselect ex_xobs xs6 [("corrprods"%string, XCore VAuto)]))
+  /\ xspec_fresh ex_xobs (xm_of xs6) [("corrprods"%string, XCore VAuto)] DB = true
+  /\ xspec_fresh ex_xobs (xm_of xs6) [("corrprods"%string, XCore VAuto)] DT = false
+  /\ tk (x_core (snd (xselect ex_xobs xs6 [("corrprods"%string, XCore VAuto)]))) = map bb [1;1;0;0;0;0;0;0].
+Proof. exact ex_recovery_instance. Qed.
+
+(* ------------------------------------------------------------------ the forms the caller may use *)
+
+(* Names: a comma string is the list of its stripped fields ('' is the empty list; an int / object is a
+   singleton); 'a,b,c' = ['a','b','c'] for names without commas and surrounding blanks; '~x' negates x, '' raises,
+   integers are indices; pol is case-insensitive; _is_deselection on the strings agrees with the all-tilde test of
+   the model (and raises / short-circuits as the code does). *)
+Theorem C02_surface_forms :
+  (sel_to_list (XBare (AStr EmptyString)) = Some []
+   /\ (forall c s, sel_to_list (XBare (AStr (String c s))) = Some (map (fun f => AStr (strip f)) (split_on 44 (String c s))))
+   /\ (forall z, sel_to_list (XBare (AInt z)) = Some [AInt z])
+   /\ (forall id, sel_to_list (XBare (AObj id)) = Some [AObj id])
+   /\ (forall l, sel_to_list (XSeq l) = Some l))
+  /\ (forall items, items <> [] -> join items <> EmptyString -> forallb clean items = true ->
+        sel_to_list (XBare (AStr (join items))) = sel_to_list (XSeq (map AStr items)))
+  /\ (forall tbl, elab_scan tbl (AStr EmptyString) = None
+        /\ (forall n, elab_scan tbl (AStr (String "~"%char n)) = Some (SNot (id_of tbl n)))
+        /\ (forall c n, code c <> 126 -> elab_scan tbl (AStr (String c n)) = Some (SName (id_of tbl (String c n))))
+        /\ (forall z, elab_scan tbl (AInt z) = Some (SIdx z)))
+  /\ (forall s, elab_pol (AStr (lower s)) = elab_pol (AStr s))
+  /\ (forall tbl l l', elab_ants tbl l = Some l' -> ants_desel l = Some (is_deselection l')).
+Proof.
+  split; [exact sel_to_list_forms|]. split; [exact comma_string_is_list|]. split; [exact elab_scan_forms|].
+  split; [exact elab_pol_case | exact elab_ants_desel].
+Qed.
+
+Example C02_surface_forms_example :
+  join ["m000"; "~m001"; "m 062"]%string = "m000,~m001,m 062"%string
+  /\ forallb clean ["m000"; "~m001"; "m 062"]%string = true
+  /\ elab ex_vocab "ants" (XBare (AStr " m000 ,m001")) = Some (VAnts [(false, 0); (false, 1)])
+  /\ elab ex_vocab "ants" (XSeq [AStr " m000"; AStr "m001"]) = Some (VAnts [(false, -1); (false, 1)])
+  /\ elab ex_vocab "ants" (XSeq [AStr "~m000"; AStr ""]) = None
+  /\ elab ex_vocab "ants" (XSeq [AStr "m000"; AStr ""]) = Some (VAnts [(false, 0); (false, -1)])
+  /\ elab ex_vocab "scans" (XBare (AStr "track,,slew")) = None
+  /\ elab ex_vocab "scans" (XBare (AStr "~track, 2")) = Some (VScans [SNot 1; SName (-1)])
+  /\ elab ex_vocab "scans" (XSeq [AStr "~track"; AInt 2]) = Some (VScans [SNot 1; SIdx 2])
+  /\ elab ex_vocab "pol" (XBare (AStr "H, vh,")) = Some (VPols [POne 0; PTwo 1 0; PEmpty])
+  /\ elab ex_vocab "inputs" (XBare (AStr "m000h,M000V")) = Some (VInputs [(0, 0); (-1, -1)])
+  /\ elab ex_vocab "target_tags" (XBare (AStr "")) = Some (VIds []).
+Proof. exact ex_forms_instance. Qed.
+
+(* Index forms of dumps / channels / corrprods: a 0-d or one-element mask is broadcast (True neutral, False
+   absorbing); an empty sequence selects nothing; an integer is the one-element list; -k is n-k; duplicates and
+   order of a list (or tuple) are irrelevant; slice(a, b, c) with a positive step keeps a, a+c, ... below b. *)
+Theorem C02_index_forms : forall n,
+  ((forall b, index_mask n (IxMask [b]) = Some (repeat b n))
+   /\ index_mask n (IxList []) = Some (repeat false n)
+   /\ (forall z, index_mask n (IxInt z) = index_mask n (IxList [z]))
+   /\ (forall k, 1 <= k <= Z.of_nat n -> index_mask n (IxInt (- k)) = index_mask n (IxInt (Z.of_nat n - k)))
+   /\ (forall l l', (forall z, In z l <-> In z l') -> index_mask n (IxList l) = index_mask n (IxList l')))
+  /\ (forall m, List.length m = n -> mand m (ones n) = m /\ mand m (repeat false n) = repeat false n)
+  /\ (forall a b c i, 0 <= a <= Z.of_nat n -> 0 <= b <= Z.of_nat n -> 0 < c ->
+        exists m, index_mask n (IxSlice (Some a) (Some b) (Some c)) = Some m /\
+                  (nth i m false = true <-> (i < n)%nat /\ a <= Z.of_nat i < b /\ (Z.of_nat i - a) mod c = 0)).
+Proof.
+  intro n. split; [apply index_forms|]. split; [intros m H; apply mand_ones; exact H | apply slice_step].
+Qed.
+
+Example C02_index_forms_example :
+  index_mask 5 (IxMask [true]) = Some (map bb [1;1;1;1;1]) /\ index_mask 5 (IxList []) = Some (map bb [0;0;0;0;0])
+  /\ index_mask 5 (IxInt (-2)) = Some (map bb [0;0;0;1;0]) /\ index_mask 5 (IxList [3; 3; -5]) = Some (map bb [1;0;0;1;0])
+  /\ index_mask 5 (IxSlice (Some 1) (Some 5) (Some 2)) = Some (map bb [0;1;0;1;0])
+  /\ index_mask 5 (IxSlice None None (Some (-2))) = Some (map bb [1;0;1;0;1])
+  /\ index_mask 5 (IxList [5]) = None /\ index_mask 5 (IxMask [true; false]) = None.
+Proof. exact ex_index_instance. Qed.
+
+(* ------------------------------------------------------------------ public attributes *)
+
+(* In every state reached without part-way failure: shape counts the masks; dumps / channels are the ascending
+   positions of the selected entries and as many as shape says; corr_products are the selected products; inputs
+   are exactly the inputs of the selected products, strictly ascending (no duplicates); ants are the antennas of
+   the current subarray, in its order, that own a selected input. *)
+Theorem C02_public_attributes : forall xo s, has_windows xo -> xreach xo s ->
+  let c := x_core s in let p := x_pub s in
+  let o := view_at xo (x_spw s) (x_sub s) in
+  p_shape p = [count (tk c); count (fk c); count (bk c)]
+  /\ p_dumps p = nonzero (tk c) /\ p_channels p = nonzero (fk c)
+  /\ Z.of_nat (List.length (p_dumps p)) = count (tk c) /\ Z.of_nat (List.length (p_channels p)) = count (fk c)
+  /\ Z.of_nat (List.length (p_freqs p)) = count (fk c) /\ Z.of_nat (List.length (p_cps p)) = count (bk c)
+  /\ (forall cp, In cp (p_cps p) <-> exists i, nth_error (o_cps o) i = Some cp /\ nth i (bk c) false = true)
+  /\ StronglySorted input_lt (p_inputs p)
+  /\ (forall x, In x (p_inputs p) <-> exists cp, In cp (p_cps p) /\ (x = fst cp \/ x = snd cp))
+  /\ (forall a, In a (p_ants p) <-> In a (sa_ants (sub_at xo (x_sub s))) /\ exists x, In x (p_inputs p) /\ ant_of x = a).
+Proof.
+  intros xo s H R c p o. pose proof (xreach_XInv xo s H R) as I. unfold p. rewrite (xi_pub _ _ I).
+  apply pub_of_spec. apply (inv_wf _ _ (xi_inv _ _ I)).
+Qed.
+Print Assumptions C02_public_attributes.
+
+Theorem C02_dumps_ascending : forall m,
+  StronglySorted Z.lt (nonzero m)
+  /\ (forall z, In z (nonzero m) <-> exists i, z = Z.of_nat i /\ nth i m false = true)
+  /\ Z.of_nat (List.length (nonzero m)) = count m.
+Proof. exact nonzero_spec. Qed.
+
+(* ------------------------------------------------------------------ non-vacuity: a two-window history *)
+(* 8 dumps, windows of 4 and 6 channels, subarrays of 3 and 2 products: spw=1; channels=[0,5]; scans='track, scan'
+   stacked; spw=0 with ants='~m001'; dumps=[0]; corrprods=[7] with scans='slew' RAISES; channels=0 RAISES too;
+   select() recovers; spw=-1 -> IndexError, bogus=7 -> TypeError, both without effect. *)
+Example C02_multiwindow_example :
+  (xinit ex_xobs = xs0
+   /\ xselect ex_xobs xs0 xc1 = (OOk, xs1) /\ xselect ex_xobs xs1 xc2 = (OOk, xs2)
+   /\ xselect ex_xobs xs2 xc3 = (OOk, xs3) /\ xselect ex_xobs xs3 xc4 = (OOk, xs4)
+   /\ xselect ex_xobs xs4 xc5 = (OOk, xs5) /\ xselect ex_xobs xs5 xc6 = (OFail, xs6)
+   /\ xselect ex_xobs xs6 xc7 = (OFail, xs7) /\ xselect ex_xobs xs7 xc8 = (OOk, xs8)
+   /\ xselect ex_xobs xs5 xc_neg = (OIndexError, xs5) /\ xselect ex_xobs xs5 xc_bogus = (OTypeError, xs5))
+  /\ has_windows ex_xobs /\ xreach ex_xobs xs5 /\ xreach_any ex_xobs xs6
+  /\ xreach ex_xobs (snd (xselect ex_xobs xs6 [("corrprods"%string, XCore VAuto)]))
+  /\ tk (x_core xs1) = map bb [0;0;0;1;1;0;0;0] /\ fk (x_core xs1) = map bb [1;1;1;1;1;1] /\ bk (x_core xs1) = bk (x_core xs0)
+  /\ tk (x_core xs4) = map bb [1;1;1;0;0;0;0;0] /\ fk (x_core xs4) = map bb [1;1;1;1] /\ bk (x_core xs4) = map bb [1;0;0]
+  /\ keys (sel (x_core xs6)) = ["spw"; "subarray"; "corrprods"; "scans"]%string /\ p_shape (x_pub xs6) = [1; 4; 1]
+  /\ tk (x_core xs6) = map bb [1;1;1;0;0;0;0;0]
+  /\ p_shape (x_pub xs8) = [3; 4; 3] /\ p_inputs (x_pub xs8) = [(0, 0); (1, 0); (1, 1)] /\ p_ants (x_pub xs8) = [0; 1].
+Proof.
+  split; [exact ex_steps|]. split; [exact ex_windows|]. split; [exact ex_reach5|]. split; [exact ex_any6|].
+  split; [exact ex_reach_after_failure|].
+  pose proof ex_masks as M. repeat split; vm_compute; reflexivity.
+Qed.
+
+(* ------------------------------------------------------------------ assumptions of everything above *)
+(* One Print Assumptions over the tuple of ALL theorems and examples of this file (individual ones are printed
+   above for the principal theorems only: each costs about a second of checking time). *)
+Definition C02_all_theorems :=
+  (C02_tables_are_documented,
+   C02_loop_branches_match_groups,
+   C02_invariant,
+   C02_refines,
+   C02_idempotent,
+   C02_kw_order,
+   C02_selection_order_irrelevant,
+   C02_reset_laws,
+   C02_flags_weights_never_change_masks,
+   C02_strict,
+   C02_timerange_wholly_inside,
+   C02_freqrange_wholly_inside,
+   C02_scans_item,
+   C02_tilde_negates,
+   C02_unknown_target_or_tag_selects_nothing,
+   C02_or_within,
+   C02_ants,
+   C02_pol,
+   C02_slice_unit_step,
+   C02_example,
+   C02_decisions_are_documented,
+   C02_source_comparisons_agree,
+   C02_constructor_state,
+   C02_multiwindow_invariant,
+   C02_multiwindow_refines,
+   C02_multiwindow_refines_example,
+   C02_history_refines,
+   C02_multiwindow_kw_order,
+   C02_multiwindow_idempotent,
+   C02_history_example,
+   C02_window_change_resets,
+   C02_multiwindow_flags_weights,
+   C02_window_out_of_range,
+   C02_failed_call_atomic_partial,
+   C02_failed_call_atomic_refuted,
+   C02_failed_call_kw_order_refuted,
+   C02_failed_call_state,
+   C02_poison_persists,
+   C02_recovery,
+   C02_recovery_example,
+   C02_surface_forms,
+   C02_surface_forms_example,
+   C02_index_forms,
+   C02_index_forms_example,
+   C02_public_attributes,
+   C02_dumps_ascending,
+   C02_multiwindow_example).
+Print Assumptions C02_all_theorems.
